@@ -185,5 +185,11 @@ NCS = Contract(
     "C06", LINUX_PY, "Process.num_ctx_switches", setup=setup_status, env=ENV, helpers=HELPERS, decorated=True,
     raises_any=True, ensures=["result.voluntary == intval(rec['vol'])", "result.involuntary == intval(rec['nonvol'])"],
     replay="c06:status", note="bounded: un-anchored two-match regex")
-BOUNDED_CONTRACTS = [NCS]
-BOUNDED = [bounded_sweep(NCS, "c06:status", quick=200, thorough=3000)]
+THR = Contract(
+    "C06", LINUX_PY, "Process.threads", env=ENV, decorated=True, raises_any=True,
+    ensures=["result == [(tid, utime/CLK, stime/CLK) of each thread's own record, fields taken after the LAST ')']"],
+    replay="c06:threads", note="bounded: per-thread loop with volatile opens; differential oracle")
+BOUNDED_CONTRACTS = [NCS, THR]
+BOUNDED = [bounded_sweep(NCS, "c06:status", quick=200, thorough=3000),
+           bounded_sweep(THR, "c06:threads", quick=150, thorough=3000)]
+NOT_COVERED.append("threads() and num_ctx_switches() are checked by bounded sweeps only (labelled bounded)")
